@@ -25,7 +25,7 @@ def main():
             {"harness": "c17b-seq", "cfg": {"depth": "5"}, "budget_s": 20, "label": "QueuePacketConn, all sequences of 5 operations over {QueueIncoming a/b, ReadFrom, WriteTo a/b, recv OutgoingQueue a/b, Close} with buffer scribbling, against a FIFO reference"},
             {"harness": "c17b-overflow", "budget_s": 10, "label": "QueuePacketConn, queueSize+5 packets each way: overflow dropped, order kept, nothing blocks"},
             {"harness": "c17b-conc", "budget_s": 30, "label": "QueuePacketConn, 2 feeders + reader + writer (+ closer): " + U},
-            {"harness": "c17c-sweeper", "budget_s": 10, "label": "ClientMap with its real sweeper on virtual time: first seen at {0,T/4,T/2,T/2-1,3T/4} x refresh {none,T/2,T-1,T/2+1}: present with contents at idle T-1ns, discarded and closed by 1.5T"},
+            {"harness": "c17c-sweeper", "budget_s": 10, "label": "ClientMap with its real sweeper on virtual time: first seen at {0,T/4,T/2,T/2-1,3T/4} x refresh {none,T/2,T-1,T/2+1,2ns,0.5s,0.999s,T/4}: present with contents at idle T-1ns, discarded and closed by 1.5T"},
         ]
         total = 175
     else:
